@@ -4,6 +4,7 @@ KeysDef == {"a", "s/b"}
 KeysTr == {"a", "s/b", "s/t/c"}
 AllK == Keys \cup {"."}
 ContentsDef == {"c0", "c1", "c2"}
+TwinsDef == {<<"c1", "c2">>, <<"c2", "c1">>}      \* c1 and c2 have the same size
 ContentsTr == {"c0", "c1", "c2", "c3", "other", "dangling"}
 NoFiles == [x \in AllK |-> NoFile]
 FileOpts(lts) == {NoFile} \cup {F(c, lt) : c \in ContentsDef, lt \in lts}
